@@ -136,11 +136,25 @@ def make_body_a(nmax, info):
         except Exception as e:
             ch.note(info, '%s raised %s: %s', bname, type(e).__name__, str(e)[:150])
             return ch.VIOLATED
-        if held is not None:
-            held.close()
         if got != exp:
             ch.note(info, '%s/%d on %s/%d: answers %r, reference %r', bname, len(bargs), name, arity, got, exp)
             return ch.VIOLATED
+        # the same goal term is called again (goals held in variables are reused): same answers
+        again = []
+        try:
+            for _ in yp.query(bname, bargs):
+                names = {}
+                again.append(tuple([show(v, names) for v in watch]))
+                if len(again) > 12:
+                    break
+        except Exception as e:
+            ch.note(info, 'second %s on the same goal term raised %s: %s', bname, type(e).__name__, str(e)[:150])
+            return ch.VIOLATED
+        if again != exp:
+            ch.note(info, 'calling %s a second time on the same goal term gives %r, first time %r', bname, again, exp)
+            return ch.VIOLATED
+        if held is not None:
+            held.close()
         for v in watch:
             if v._is_bound:
                 ch.note(info, 'variable still bound after %s', bname)
@@ -220,6 +234,7 @@ def skeletons(nf):
     sk('callvar', [(F('t', X), conj(eq(G, F('foo', X)), call('call', G)))], ('t', ['any']), d1)
     sk('callextra', [(F('t', X), conj(eq(G, A('foo')), call('call', G, X)))], ('t', ['any']), d1)
     sk('callpartial', [(F('t', X, Y), conj(eq(G, F('foo2', X)), call('call', G, Y)))], ('t', ['any', 'any']), {('foo2', 2): nf})
+    sk('callreuse', [(F('t', X, Y), conj(eq(G, F('foo2', X)), call('call', G, Y), call('call', G, V('Z')), eq(V('Z'), Y)))], ('t', ['any', 'any']), {('foo2', 2): nf})
     sk('onceinline', [(F('t', X), call('once', F('foo', X)))], ('t', ['any']), d1)
     sk('oncevaratom', [(A('t0'), conj(eq(G, A('bar')), call('once', G))), (F('t', X), conj(call('t0'), call('foo', X)))],
        ('t', ['any']), {('foo', 1): nf, ('bar', 0): nf})
